@@ -2398,7 +2398,12 @@ MANIFEST = {
             "(bit-exact doubles, heap layouts) with a bookkeeping oracle. Round 3: geometric::KPIECE1::solve modelled on top of it "
             "(tree invariant with the lastValid edge justification, real solutions only, KPIECE1 obeys the Discretization protocol, "
             "selectMotion never meets an empty discretization, for every script and interruption point); the real planner runs in "
-            "lock-step on R^2/R^3 box environments (full tree, cell table, path, status) with an oracle that recomputes the validator.",
+            "lock-step on R^2/R^3 box environments (full tree, cell table, path, status) with an oracle that recomputes the validator. "
+            "Rounds 4-5: geometric::LBKPIECE1::solve (lazy bidirectional; the user of Discretization::removeMotion) modelled on the same "
+            "discretization model; proved for every script: the valid flag is sound, isPathValid is complete for the chain it accepts, "
+            "the reported path is real (every edge answered valid by checkMotion or a re-added lastValid state; valid start to valid goal "
+            "sample), and the Discretization invariants hold for BOTH trees across removeMotion of whole subtrees and re-adds; that "
+            "removeMotion removes exactly the descendants and frees each once is sampled (oracle on every dump), only its frame part is proved.",
     "note": "Trusted: Lean kernel, the three standard axioms, the hand-written model outside the scripts the correspondence explored, "
             "the harness, the reused C11 heap model. Histories follow the user protocol of KPIECE's Discretization; tops-are-minima "
             "is checked by the oracle and the correspondence (the heap-order theorems belong to C11).",
